@@ -61,7 +61,11 @@ def solo_messages(kind, name, data, path, opts):
     if key in _SOLO:
         return _SOLO[key]
     scn = core.Scenario([core.FileSpec(path, data, 1600000000)], list(opts) + [path], None, "UTC")
-    res = core.execute(scn, core.Plan(seed=1, policy="lowest"))
+    fps, core.FINGERPRINTS = core.FINGERPRINTS, None     # a per-process cached auxiliary run: not part of any case's fingerprint
+    try:
+        res = core.execute(scn, core.Plan(seed=1, policy="lowest"))
+    finally:
+        core.FINGERPRINTS = fps
     parts = res.stdout.split(MARK.encode())
     tail = parts.pop()
     msgs = [p + MARK.encode() for p in parts]
